@@ -1,6 +1,7 @@
 package c17
 
 import (
+	"bytes"
 	"encoding/binary"
 	"encoding/hex"
 	"errors"
@@ -13,6 +14,7 @@ import (
 
 	v1 "github.com/fatedier/frp/pkg/config/v1"
 	"github.com/fatedier/frp/pkg/msg"
+	netpkg "github.com/fatedier/frp/pkg/util/net"
 	"pgregory.net/rapid"
 
 	"verifharness/fx"
@@ -25,6 +27,7 @@ type LiveCase struct {
 	TCPMux bool      `json:"tcpmux"`
 	TLS    bool      `json:"tls"`
 	Frames []DecCase `json:"frames"`
+	Pipelined int    `json:"pipelined"` // >0: a peer that sends its Login and the first bytes of what follows in ONE write (split point variants)
 }
 
 func genLive(t *rapid.T) LiveCase {
@@ -40,6 +43,7 @@ func genLive(t *rapid.T) LiveCase {
 	// always include a well-formed message that is not legal as first message
 	ty := rapid.SampledFrom([]byte{'h', '4', '1', 'p', '2', 'c', 'r', 's', 'u', 'i', 'n', 'm', '5', '6', '3'}).Draw(t, "unexpected")
 	c.Frames = append(c.Frames, DecCase{Hex: hex.EncodeToString(frame(ty, 2, []byte("{}"))), Kind: "unexpected-" + string(ty)})
+	c.Pipelined = rapid.IntRange(0, 3).Draw(t, "pipelined")
 	return c
 }
 
@@ -106,6 +110,66 @@ func runLive(c LiveCase) error {
 		if _, e := by.Ping(&msg.Ping{}, 4*time.Second); e != nil {
 			return fmt.Errorf("after frame %d (%s) the legitimate session no longer answers pings: %v", i, f.Kind, e)
 		}
+	}
+	if c.Pipelined > 0 {
+		// the decoder must consume exactly one frame: a peer that does not wait for the LoginResp before it sends the
+		// start of its encrypted control stream (IV + a Ping) must still get its Pong
+		conn, e := by.RawConn()
+		if e != nil {
+			return fx.Inconclusive("raw conn: %v", e)
+		}
+		defer conn.Close()
+		var first bytes.Buffer
+		if e := msg.WriteMsg(&first, by.LoginMsg("pipe", "", 0)); e != nil {
+			return fx.Inconclusive("%v", e)
+		}
+		var rest bytes.Buffer
+		crw, e := netpkg.NewCryptoReadWriter(&rest, []byte(fx.Token))
+		if e != nil {
+			return fx.Inconclusive("%v", e)
+		}
+		if e := msg.WriteMsg(crw, &msg.Ping{}); e != nil {
+			return fx.Inconclusive("%v", e)
+		}
+		all := append(append([]byte{}, first.Bytes()...), rest.Bytes()...)
+		switch c.Pipelined {
+		case 1: // everything in one write
+			_, _ = conn.Write(all)
+		case 2: // the frame plus a few bytes of what follows, then the rest
+			k := first.Len() + 5
+			_, _ = conn.Write(all[:k])
+			time.Sleep(20 * time.Millisecond)
+			_, _ = conn.Write(all[k:])
+		case 3: // split inside the frame, the tail of the frame together with what follows
+			k := first.Len() / 2
+			_, _ = conn.Write(all[:k])
+			time.Sleep(20 * time.Millisecond)
+			_, _ = conn.Write(all[k:])
+		}
+		_ = conn.SetReadDeadline(time.Now().Add(6 * time.Second))
+		var lr msg.LoginResp
+		if e := msg.ReadMsgInto(conn, &lr); e != nil || lr.Error != "" {
+			return fmt.Errorf("pipelining peer (variant %d): login not answered with success: %v %q", c.Pipelined, e, lr.Error)
+		}
+		srw, e := netpkg.NewCryptoReadWriter(conn, []byte(fx.Token))
+		if e != nil {
+			return fx.Inconclusive("%v", e)
+		}
+		got := false
+		for k := 0; k < 4 && !got; k++ {
+			m, e := msg.ReadMsg(srw)
+			if e != nil {
+				return fmt.Errorf("pipelining peer (variant %d): logged in, but the Ping that followed the Login in the same write was never answered (%v): bytes after the first frame were lost", c.Pipelined, e)
+			}
+			if _, ok := m.(*msg.Pong); ok {
+				got = true
+			}
+		}
+		if !got {
+			return fmt.Errorf("pipelining peer (variant %d): no Pong among the first messages", c.Pipelined)
+		}
+		conn.Close()
+		time.Sleep(30 * time.Millisecond)
 	}
 	cn, e := net.DialTimeout("tcp", fmt.Sprintf("127.0.0.1:%d", s.AllowPort(0)), 2*time.Second)
 	if e != nil {
